@@ -20,7 +20,22 @@ def shapes():
                                                  G.op("usesImport", [G.field("a", "z"), G.spread("Imported")])]}},
                                {"path": ["ops", "s6", "lib", "f.graphql"], "doc": {"defs": [f_imp]}}]))
     sh.append(("subscriptionOnly", [{"path": ["ops", "s7", "a.graphql"], "doc": {"defs": [G.op("onTick", [G.field("s")], "subscription")]}}]))
+    # an operation and a fragment with the SAME name (operation names and fragment names are separate namespaces)
+    sh.append(("sameNameOpFirst", [{"path": ["ops", "s8", "a.graphql"],
+                                    "doc": {"defs": [G.op("Post", [G.field("a"), G.spread("Post")]), G.frag("Post", [G.field("b")])]}}]))
+    sh.append(("sameNameFragFirst", [{"path": ["ops", "s9", "a.graphql"],
+                                      "doc": {"defs": [G.frag("Me", [G.field("a", "z")]), G.op("Me", [G.spread("Me")])]}}]))
+    sh.append(("sameNameImported", [{"path": ["ops", "s10", "a.graphql"],
+                                     "doc": {"defs": [G.imp([".", "lib", "f.graphql"], ["Thing"]), G.op("Thing", [G.field("a"), G.spread("Thing")])]}},
+                                    {"path": ["ops", "s10", "lib", "f.graphql"], "doc": {"defs": [G.frag("Thing", [G.field("b")])]}}]))
     return [{"name": n, "files": fs, "root": fs[0]["path"]} for n, fs in sh]
+
+
+def same_export_name(c):
+    """with equal (effective) suffixes a same-named operation and fragment would be declared under ONE identifier: outside the domain"""
+    q = "Query" if c["querySuffix"] == "unset" else c["querySuffix"]
+    f = "" if c["fragmentSuffix"] == "unset" else c["fragmentSuffix"]
+    return q == f
 
 
 def config_text(cfg):
@@ -52,7 +67,8 @@ def run(ctx, res):
     # an anonymous operation gets the name "" + querySuffix: with an empty suffix there is no identifier at all on either
     # side, so that combination is outside the property's domain (nothing is "declared")
     cases = [{"cfg": c, "configText": config_text(c), "schema": G.OPS_SCHEMA,
-              "shapes": [s for s in sh if not (s["name"] == "oneAnonymous" and c["querySuffix"] == "")]} for c in cfgs]
+              "shapes": [s for s in sh if not (s["name"] == "oneAnonymous" and c["querySuffix"] == "")
+                         and not (s["name"].startswith("sameName") and same_export_name(c))]} for c in cfgs]
     vlib.write_ndjson(ctx.path("cases.ndjson"), cases)
     vlib.run_harness(["exports", vlib.CLI_BIN, ctx.path("cases.ndjson"), ctx.path("events.ndjson"), ctx.path("proj"), "12"], timeout=3000)
     events = vlib.read_ndjson(ctx.path("events.ndjson"))
@@ -66,7 +82,7 @@ def run(ctx, res):
     res.rule = ("Spec->impl: Gen_C14 enumerates the full product of mode x defaultExportForOperation x capitalizeOperationNames x "
                 "{query,mutation,subscription,fragment}VariableSuffix in {unset,'','Doc'} (x exported result/variables types in "
                 "thorough): %d configurations, each applied to %d operation-file shapes (named / anonymous / two operations / "
-                "operation + lower- and upper-case fragments / fragments only / imported fragment / subscription). The real CLI "
+                "operation + lower- and upper-case fragments / fragments only / imported fragment / subscription / an operation and a local or imported fragment with the same name). The real CLI "
                 "writes the declaration files, the real loader ABI emits the module from the same configuration text; impl->spec: "
                 "Trace_C14 evaluates Exports!ExportItems (names subset, default present, same definition - via the source-map "
                 "segment of the declaring identifier, or the embedded document in standalone mode). Non-trivial = event with at "
